@@ -140,6 +140,12 @@ fn apply(o: wasm::SvgOptions, op: &WOp) -> wasm::SvgOptions {
 }
 
 pub fn check(c: &Case, obs: &mut Obs) -> Result<(), Fail> {
+    if let Some(t) = EDGE_TOKENS.iter().find(|t| c.content.starts_with(**t)) {
+        obs.label(&format!("content_starts_with:{}", t.escape_default()));
+    }
+    if EDGE_TOKENS.iter().any(|t| c.content.len() > t.len() && c.content.ends_with(*t)) {
+        obs.label("content_ends_with_an_edge_token");
+    }
     // (2) matrix export
     let exported = catch(|| wasm::qr(&c.content)).map_err(|p| Fail { sig: panic_sig(&p), msg: format!("qr({:?}…) panicked: {}", c.content.chars().take(40).collect::<String>(), p) })?;
     let native = catch(|| QRBuilder::new(c.content.as_str()).build()).map_err(|p| Fail { sig: panic_sig(&p), msg: format!("native build panicked: {}", p) })?;
@@ -359,8 +365,30 @@ fn op_strategy() -> BoxedStrategy<WOp> {
     .boxed()
 }
 
+/// Characters and sequences a "helpful" hand-over of the content might trim, fold or interpret at either end of the
+/// text: byte-order mark, zero-width and no-break spaces, white space, NUL, line ends, the symbology identifier and
+/// ECI escape of scanner output, a URI scheme.
+const EDGE_TOKENS: [&str; 16] = ["\u{FEFF}", "\u{200B}", "\u{A0}", " ", "\t", "\n", "\r\n", "\0", "\u{2028}", "\u{200F}", "]Q1", "\\000026", "http://", "HTTPS://", "\u{FFFD}", "\u{1F600}"];
+
+fn plain_content() -> BoxedStrategy<String> {
+    prop_oneof![
+        3 => "[ -~]{0,60}",
+        2 => "[0-9]{0,80}",
+        2 => "[0-9A-Z $%*+./:-]{0,80}",
+        1 => "\\PC{0,40}",
+        2 => (0usize..120).prop_flat_map(crate::gens::utf8_text).prop_map(|v| String::from_utf8(v).expect("utf8_text is well-formed")),
+    ]
+    .boxed()
+}
+
 fn content_strategy() -> BoxedStrategy<String> {
     prop_oneof![
+        // a token at the very start / at the very end / at both ends / alone
+        3 => (0usize..EDGE_TOKENS.len(), plain_content()).prop_map(|(t, b)| format!("{}{}", EDGE_TOKENS[t], b)),
+        2 => (0usize..EDGE_TOKENS.len(), plain_content()).prop_map(|(t, b)| format!("{}{}", b, EDGE_TOKENS[t])),
+        1 => (0usize..EDGE_TOKENS.len(), 0usize..EDGE_TOKENS.len(), plain_content()).prop_map(|(t, u, b)| format!("{}{}{}", EDGE_TOKENS[t], b, EDGE_TOKENS[u])),
+        1 => (0usize..EDGE_TOKENS.len(), 1usize..4).prop_map(|(t, n)| EDGE_TOKENS[t].repeat(n)),
+        2 => (0usize..200).prop_flat_map(crate::gens::utf8_text).prop_map(|v| String::from_utf8(v).expect("utf8_text is well-formed")),
         1 => Just(String::new()),
         4 => "[ -~]{0,60}",
         2 => "[0-9]{0,80}",
@@ -376,7 +404,7 @@ fn content_strategy() -> BoxedStrategy<String> {
 
 pub fn run(e: &'static Engine) {
     e.set_rule(
-        "Generated: content strings (empty, printable ASCII, digits, 45-set, arbitrary Unicode, long runs up to 8 000 bytes incl. over \
+        "Generated: content strings (empty, printable ASCII, digits, 45-set, arbitrary Unicode, multi-script UTF-8 text, each optionally with an edge token - byte-order mark, zero-width / no-break space, white space, NUL, line ends, ]Q1, \\000026, a URI scheme - at its start, its end or both, long runs up to 8 000 bytes incl. over \
          capacity) x a program of 0..10 SvgOptions setter calls in any order with repetition: shape, margin 0..=64, ecl, version, image \
          (as C12, incl. empty), image_size(size, gap), image_position(vector of length 0..4), image_background_shape and the three \
          colour setters fed with #RRGGBB / #RRGGBBAA / no # / either case and malformed strings (names, 3-digit hex, odd length, \
